@@ -10,6 +10,7 @@ from vlib.facts import kids, strip, walk, is_call, call_args, call_object, calle
 from vlib.paren import Paren, ANY, CLEAN
 from vlib.cfg import write_target
 from vlib.work import AnalysisBroken
+from vlib.exprterm import Builder, normal_form, show, NF, Poly, TermError
 
 UNITS = ["src/occa/internal/lang/modes/oklForStatement.cpp", "src/occa/internal/lang/modes/withLauncher.cpp", "src/occa/internal/lang/modes/cuda.cpp",
          "src/occa/internal/lang/modes/opencl.cpp", "src/occa/internal/lang/modes/metal.cpp", "src/occa/internal/lang/modes/dpcpp.cpp",
@@ -40,6 +41,7 @@ def run(ctx):
     R.rule("C17-R1", "user expression embedded in a built operator node only parenthesised / tighter-binding", floor=14)
     R.rule("C17-R2", "launcher backends share count/mapping; hardware index spelling depends on the loop index; dims stored by matching index", floor=16)
     R.rule("C17-R3", "count and mapping use the same header fields", floor=5)
+    R.rule("C17-R5", "closed form of the launch count and of the index mapping, per header configuration, equals the sequential loop's iteration count / k-th iterator value", floor=12)
     R.rule("C17-R4", "header facts are derived from the matching operator flags (inclusive, direction, side)", floor=6)
 
     for name in ("getIterationCount", "makeDeclarationValue"):
@@ -136,6 +138,33 @@ def run(ctx):
     g0 = [n for n in gic.walk() if n["k"] == "IfStmt" and "valid" in noid(render(kids(n)[0], False))]
     m0 = [n for n in mdvf.walk() if n["k"] == "IfStmt" and "valid" in noid(render(kids(n)[0], False))]
     R.ob("C17-R3", bool(g0) and bool(m0), OF + "*", "both refuse an invalid header", "%s:%d" % (gic.relfile, gic.d["line"]), "NULL for an unvalidated loop header")
+
+    # ---- R5: closed forms ---------------------------------------------------------------------------------------------
+    I, B, S, X = Poly.sym("init"), Poly.sym("bound"), Poly.sym("step"), Poly.sym("index")
+    fields = {"initValue": "init", "checkValue": "bound", "updateValue": "step"}
+    for pos in (True, False):
+        for incl in (False, True):
+            for stepped in (False, True):
+                cfgd = {"this->valid": True, "this->positiveUpdate": pos, "this->checkIsInclusive": incl, "this->updateValue": stepped}
+                tag = "%s %s %s" % ("ascending" if pos else "descending", "inclusive" if incl else "exclusive", "step" if stepped else "unit")
+                n = (B - I) if pos else (I - B)
+                want_count = NF.quot(n + (1 if incl else 0) + S - 1, S) if stepped else NF(n + (1 if incl else 0))
+                want_map = NF(I + (S * X if stepped else X)) if pos else NF(I - (S * X if stepped else X))
+                for f, want, what, params in ((gic, want_count, "count", {}), (mdvf, want_map, "value", {"magicIterator": "index"})):
+                    try:
+                        t = Builder(prog, f, fields, cfgd, params).result()
+                        got = normal_form(t)
+                    except TermError as e:
+                        raise AnalysisBroken("%s [%s]: builder not reducible to a closed form: %s" % (f.q, tag, e))
+                    ok = got == want
+                    R.ob("C17-R5", ok, f.q, "%s[%s]" % (what, tag), "%s:%d" % (f.relfile, f.d["line"]),
+                         ("builds %s = %r" % (show(t), got)) if ok else
+                         "builds %s = %r, but the sequential loop %s %r: they differ for some header values (a run-time empty or short range launches a wrong number of work items / maps an index to a value the loop never takes)"
+                         % (show(t), got, "runs" if what == "count" else "takes as its k-th value", want))
+                # an invalid header yields no expression at all
+    for f in (gic, mdvf):
+        t = Builder(prog, f, fields, {"this->valid": False}, {"magicIterator": "index"}).result()
+        R.ob("C17-R5", t == ("null",), f.q, "invalid header -> NULL", "%s:%d" % (f.relfile, f.d["line"]), "no count / mapping is produced for an unvalidated header", nontrivial=False)
 
     # ---- R4: how the validated header facts the builders rely on are derived -------------------------------------
     hc = prog.fn(OF + "hasValidCheck")
